@@ -20,5 +20,9 @@ Finish == /\ ~done /\ cur > 0 /\ nIn > 0 /\ Len(input) >= MinItems /\ done' = TR
 Next == \/ \E s \in pos..(L - 1) : \E e \in s..(L + EndSlack) : AddEntry(s, e)
         \/ \E c \in (cur + 1)..NC : NextChrom(c)
         \/ Finish
-Emit == done => PrintT(<<"REPLAY", ToJson([items |-> input, ips |-> ips, zooms |-> zl, NC |-> NC, L |-> L])>>)
+\* mechanism => abstract, at every complete input
+MechSummaryOK == done => SummaryOKB(input, MechSummary(input))
+MechZoomOK == done => ZoomsOKB(input, ModelZoomsB(input, zl))
+Emit == done => PrintT(<<"REPLAY", ToJson([items |-> input, ips |-> ips, zooms |-> zl, NC |-> NC, L |-> L,
+                                          mz |-> ModelZoomsB(input, zl), msum |-> MechSummary(input)])>>)
 =============================================================================
